@@ -227,16 +227,29 @@ func CoordMain(propID, tier string, seed uint64, runsOverride int) int {
 			continue
 		}
 		seenClass[v.V.Class] = true
-		if !v.Det {
-			cs.harness = append(cs.harness, fmt.Sprintf("run %d: violation %s did not reproduce from its own tape (nondeterminism in harness)", v.Idx, v.V.Class))
-			continue
-		}
 		rf := ReplayFile{Property: propID, Seed: seed, RunIndex: v.Idx, Violation: v.V, Tape: v.Tape, Trace: v.Trace}
 		h := sha256.Sum256([]byte(fmt.Sprint(propID, v.V.Class, seed, v.Idx)))
 		base := filepath.Join(VerifDir(), "replays", fmt.Sprintf("%s-%s", propID, hex.EncodeToString(h[:5])))
 		orig := base + ".orig.json"
 		ob, _ := json.MarshalIndent(rf, "", " ")
 		os.WriteFile(orig, ob, 0o644)
+		if !v.Det {
+			// The worker could not repeat the violation from the same tape in the same process. A run whose outcome depends
+			// on what the process did before (state the code under test keeps between calls) behaves like that; a fresh
+			// process per replay is the contract of a replay file, so that is what decides: reproduced there = a real,
+			// replayable violation (reported unminimised), not reproduced = the harness is not deterministic.
+			rp := workerCmd(p, "replay-local", orig)
+			out, _ := rp.CombinedOutput()
+			if rp.ProcessState.ExitCode() != 1 {
+				os.Remove(orig)
+				cs.harness = append(cs.harness, fmt.Sprintf("run %d: violation %s did not reproduce from its own tape, neither in the worker nor in a fresh process (nondeterminism in harness): %s", v.Idx, v.V.Class, lastLines(string(out), 3)))
+				continue
+			}
+			violLines = append(violLines, fmt.Sprintf("VIOLATION property=%s replay=%s", propID, orig))
+			fmt.Printf("violation: run=%d class=%s (reproduces in a fresh process only: depends on process-lifetime state)\n  %s\n", v.Idx, v.V.Class, v.V.Msg)
+			exit = 1
+			continue
+		}
 		minPath := base + ".json"
 		sh := workerCmd(p, "shrink-local", orig, minPath, "90s")
 		sh.Stdout = io.Discard
